@@ -1,6 +1,7 @@
 import Slu.Model.Readers
 import SluProofs.Lemmas.ReadersSort
 import SluProofs.Lemmas.ReadersText
+import SluProofs.Lemmas.ReadersTriple
 /-
 C16 — Matrix file readers return exactly the matrix in the file.
 
@@ -140,5 +141,20 @@ theorem read_print_ints (k w : Nat) (xs : List Nat) (hk : 0 < k) (hw : 0 < w) (h
 -- 16 fields of width 5 per line (the layout of EXAMPLE/g20.rua): 16*5+1 < 100; every number below 10^5 fits
 example : readVector 3 4 5 (printInts 3 4 [1, 22, 333, 4444, 5]) = some ([0, 21, 332, 4443, 4], []) :=
   readVector_printInts_of_lt 3 4 [1, 22, 333, 4444, 5] (by decide) (by decide) (by decide) (by decide)
+
+/-! ### A whole file: SuperLU's triplet format (dreadtriple.c:27-128) -/
+
+/-- **C16 (round trip of a triplet file).** For every `n` and every list of in-range entries with
+natural-number values — any order, duplicates allowed — the text `n nnz` followed by one line
+`row+1 col+1 value` per entry is read back (header, 1-based conversion, zero-base heuristic, bound
+check, counting sort) as the compressed-column form of exactly those entries: by `triplets_to_csc`,
+monotone pointers with `colptr[n] = nnz` and column `j` holding the file's entries of column `j` in
+file order with their values. -/
+theorem read_print_triple (n : Nat) (ts : List (Trip Nat)) (h : ∀ t ∈ ts, t.row < n ∧ t.col < n) :
+    readTriple false (printTriple n ts) =
+      .ok (resultOfCsc n n (cscOfTriplets n (ts.map tripRat)).1 (cscOfTriplets n (ts.map tripRat)).2) :=
+  readTriple_printTriple n ts h
+
+example : ∀ t ∈ [(⟨2, 1, 7⟩ : Trip Nat), ⟨0, 0, 12⟩, ⟨1, 2, 0⟩, ⟨2, 1, 5⟩], t.row < 3 ∧ t.col < 3 := by decide
 
 end Slu.Readers
